@@ -819,6 +819,8 @@ func genC15Make(c *Ctx) {
 				s.Leave = leave
 				if leave {
 					s.Room = "joined"
+				} else if gmsl.MustGetRoomVersion(gmsl.RoomVersion(v)).CheckRestrictedJoinsAllowed() != nil {
+					s.Room = "public" // no restricted join rule in this version
 				}
 				m.f(&s)
 				c.c15Run(impl, s, impl+" v"+v+" "+m.name)
@@ -840,6 +842,8 @@ func genC15Make(c *Ctx) {
 					s.Leave = leave
 					if leave {
 						s.Room = "joined"
+					} else if gmsl.MustGetRoomVersion(gmsl.RoomVersion(v)).CheckRestrictedJoinsAllowed() != nil {
+						s.Room = "public"
 					}
 					muts[i].f(&s)
 					muts[j].f(&s)
